@@ -2,8 +2,9 @@ from props import S
 
 CFG = {
     "properties_file": "Properties/C18.v",
-    "corr_files": ["Corr/RateLimitCorr.v", "Corr/C18.v"],
-    "streams": [S("C18", "drive_ratelimit", 320, 20000), S("C18ns", "drive_ratelimit", 160, 12000)],
+    "corr_files": ["Corr/RateLimitCorr.v", "Corr/C18.v", "Corr/C18h.v"],
+    "streams": [S("C18", "drive_ratelimit", 320, 20000), S("C18ns", "drive_ratelimit", 160, 12000),
+                S("C18h", "drive_ratelimit", 60, 3000)],
     "rule": "one limiter object of the real code (RateLimiter built by NewRateLimiter, bare PerIPLimiter, bare TokenBucket) "
             "driven on the virtual clock by 8-70 calls (AllowRequest / AllowOperation / CleanupConnection; 1-4 addresses, "
             "1-3 connections, all four operation types; rates {0,1,2,3,10,1000} + dyadic fractions, bursts {0,1,2,5,100}, "
@@ -11,7 +12,13 @@ CFG = {
             "100-deletions-per-pass cap). Stream C18: clock advances on the 2^-9 s grid (bursts, exact refill periods, "
             "one tick short/long, seconds, ~5 minutes) -> bit-for-bit. Stream C18ns: arbitrary ns advances and non-dyadic "
             "rates (0.1, 1/3, mount 1,7,10,59 per minute) -> a disagreement is tolerated only with the exact level "
-            "within 1e-6 of 1. Non-trivial = the case contains both an admission and a refusal; distinct = distinct case term.",
+            "within 1e-6 of 1. Stream C18h: the limiters THROUGH the server - a real AbsfsNFS with EnableRateLimiting and small "
+            "varied limits receives 14-43 NFS/MOUNT calls from 1-3 addresses on the grid clock, 65% through "
+            "NFSProcedureHandler.HandleCall (per-operation limiters), 35% over loopback TCP connections of the exported server "
+            "(AllowRequest in the connection loop, then the handler): READDIR/READDIRPLUS with cookie 0, client-chosen non-zero "
+            "cookies and cookies from replies, varied counts; READ/WRITE of 1..131072 bytes (threshold 64 KiB); MNT; plain "
+            "GETATTR/NULL/FSINFO/LOOKUP; observation per call = passed / MSG_DENIED / NFS3ERR_DELAY (MNT 10006). "
+            "Non-trivial = the case contains both an admission and a refusal; distinct = distinct case term.",
     "assumptions": [
         "ideal arithmetic: TokenBucket's float64 operations are modelled over Q (exact on the dyadic grid of the strict "
         "stream; elsewhere rounding matters only within 1e-6 of the threshold)",
